@@ -80,7 +80,7 @@ impl SigT for [u64; 2] {
 fn decode(u: &mut Unstructured, big: bool) -> Case {
     let sig_words = u.int_in_range(1u8..=2).unwrap_or(2);
     let val_kind = u.int_in_range(0u8..=3).unwrap_or(0);
-    let offline = u.int_in_range(0u8..=19).unwrap_or(1) == 0 || (big && u.int_in_range(0u8..=2).unwrap_or(1) == 0);
+    let offline = u.int_in_range(0u8..=19).unwrap_or(1) <= 3 || (big && u.int_in_range(0u8..=2).unwrap_or(1) == 0);
     let bucket_bits = u.int_in_range(0u32..=if offline { 4 } else { 8 }).unwrap_or(0);
     let max_shard_bits = u.int_in_range(0u32..=10).unwrap_or(0);
     let shard_bits = match u.int_in_range(0u8..=4).unwrap_or(0) {
